@@ -6,11 +6,11 @@ package main
 // guard, an intrinsic reason, or a single-construct exemption.
 
 import (
-	"regexp"
 	"fmt"
 	"go/constant"
 	"go/token"
 	"go/types"
+	"regexp"
 	"sort"
 	"strings"
 
@@ -18,21 +18,21 @@ import (
 )
 
 type Audit struct {
-	w        *World
-	e        *Engine
-	r        *Report
-	rule     string
-	exempt   map[string]string // "func | construct" -> reason
-	mayNil   map[ssa.Value]bool
-	nilRet   map[*ssa.Function][]bool
-	barriers map[*ssa.Function]string
-	closure  []*ssa.Function
-	inClos   map[*ssa.Function]bool
-	callees  map[*ssa.Function][]*ssa.Function
-	hostNil  map[string][]int // function name -> parameter indices the host may pass nil
-	usedEx   map[string]bool
-	only     func(*ssa.BasicBlock) bool // when set, only sites in these blocks are audited
-	pendingSrc string                   // source text of the site being reported (shown in the detail)
+	w          *World
+	e          *Engine
+	r          *Report
+	rule       string
+	exempt     map[string]string // "func | construct" -> reason
+	mayNil     map[ssa.Value]bool
+	nilRet     map[*ssa.Function][]bool
+	barriers   map[*ssa.Function]string
+	closure    []*ssa.Function
+	inClos     map[*ssa.Function]bool
+	callees    map[*ssa.Function][]*ssa.Function
+	hostNil    map[string][]int // function name -> parameter indices the host may pass nil
+	usedEx     map[string]bool
+	only       func(*ssa.BasicBlock) bool // when set, only sites in these blocks are audited
+	pendingSrc string                     // source text of the site being reported (shown in the detail)
 }
 
 // isRecoverBarrier: the function's first instruction that can do anything is a
@@ -251,7 +251,12 @@ func (a *Audit) computeClosure(entries []*ssa.Function, stopAt func(*ssa.Functio
 }
 
 func (a *Audit) exemptKey(fn *ssa.Function, construct string) string {
-	return a.w.fnName(fn) + " | " + construct
+	name := a.w.fnName(fn)
+	if rn := a.w.roleName(fn); rn != fn.Name() && fn.Parent() == nil && fn.Signature.Recv() == nil {
+		// an anchor that was renamed keeps the key of the part it plays
+		name = strings.TrimSuffix(name, fn.Name()) + rn
+	}
+	return name + " | " + construct
 }
 
 func (a *Audit) site(fn *ssa.Function, kind, construct string, pos token.Pos, ok bool, why string) {
@@ -320,6 +325,19 @@ func canonVal(e *Engine, v ssa.Value) string {
 	return describeVal(e, v, 0)
 }
 
+// canonField: in canonical renderings an unexported field is named by its type (its name is the author's
+// business and may change; exported fields are API).
+func canonField(t types.Type, i int) string {
+	name := fieldName(t, i)
+	if !canonNames || token.IsExported(name) {
+		return name
+	}
+	if fv := structField(t, i); fv != nil {
+		return "{" + shortType(fv.Type()) + "}"
+	}
+	return name
+}
+
 func paramIndexName(p *ssa.Parameter) string {
 	for i, q := range p.Parent().Params {
 		if q == p {
@@ -368,9 +386,9 @@ func describeVal(e *Engine, v ssa.Value, depth int) string {
 		}
 		return describeVal(e, x.Tuple, depth+1) + fmt.Sprintf("#%d", x.Index)
 	case *ssa.Field:
-		return describeVal(e, x.X, depth+1) + "." + fieldName(x.X.Type(), x.Field)
+		return describeVal(e, x.X, depth+1) + "." + canonField(x.X.Type(), x.Field)
 	case *ssa.FieldAddr:
-		return "&" + describeVal(e, x.X, depth+1) + "." + fieldName(x.X.Type(), x.Field)
+		return "&" + describeVal(e, x.X, depth+1) + "." + canonField(x.X.Type(), x.Field)
 	case *ssa.IndexAddr:
 		return "&" + describeVal(e, x.X, depth+1) + "[" + describeVal(e, x.Index, depth+1) + "]"
 	case *ssa.Index:
@@ -394,7 +412,7 @@ func describeVal(e *Engine, v ssa.Value, depth int) string {
 						}
 					}
 				}
-				return base + "." + fieldName(ad.X.Type(), ad.Field)
+				return base + "." + canonField(ad.X.Type(), ad.Field)
 			case *ssa.IndexAddr:
 				return describeVal(e, ad.X, depth+1) + "[" + describeVal(e, ad.Index, depth+1) + "]"
 			case *ssa.Alloc:
@@ -472,6 +490,9 @@ func describeCall(e *Engine, c *ssa.Call, depth int) string {
 	name := "?"
 	if sc := c.Call.StaticCallee(); sc != nil {
 		name = sc.Name()
+		if canonNames && e != nil {
+			name = e.w.roleName(sc)
+		}
 	} else if c.Call.IsInvoke() {
 		name = describeVal(e, c.Call.Value, depth+1) + "." + c.Call.Method.Name()
 	} else if b, ok := c.Call.Value.(*ssa.Builtin); ok {
@@ -1125,7 +1146,6 @@ func (a *Audit) unusedExemptions() {
 		a.r.addRaw(a.rule+".exemption", "-", k, "-", "info", "exemption not needed on this tree (construct absent or discharged by a guard)")
 	}
 }
-
 
 // lastIndexOf: v is strings.LastIndex(s, "sep") / strings.Index(s, "sep") with a constant separator.
 func lastIndexOf(v ssa.Value) (ssa.Value, string, bool) {
